@@ -88,14 +88,13 @@ structure LoadSt (s0 : State) (c : Cfg) (B : List Addr) (s : State) : Prop where
   zombies : s.zombies = s0.zombies
   heldIn : ∀ a, a ∈ B → s.holds a c.gen = true
   notHeld : ∀ a, a ∉ B → s.holds a c.gen = false
-  notStale : ∀ a, a ∉ B → a ∈ c.addrs → a.unix = true → (s.socks a).stale = false
   mono : ∀ a g, s0.holds a g = true → s.holds a g = true
 
 theorem LoadSt.cbStart {s0 s : State} {c : Cfg} {B : List Addr} (h : LoadSt s0 c B s) :
     ∃ s', step? s (.cb .start c.gen) = some s' ∧ LoadSt s0 c B s' := by
   have he : enabled s (.cb .start c.gen) = true := by simp [enabled, h.loading, genOf, h.next]
   have hs : step? s (.cb .start c.gen) = some (eff s (.cb .start c.gen)) := by simp [step?, he]
-  refine ⟨_, hs, ⟨h.reach.step _ hs, h.next, ?_, h.cur, h.zombies, h.heldIn, h.notHeld, h.notStale, h.mono⟩⟩
+  refine ⟨_, hs, ⟨h.reach.step _ hs, h.next, ?_, h.cur, h.zombies, h.heldIn, h.notHeld, h.mono⟩⟩
   simp [eff, State.loading]
 
 theorem LoadSt.cbProvision {s0 s : State} {c : Cfg} {B : List Addr} (h : LoadSt s0 c B s) (hp : s.phase = .prov) :
@@ -107,14 +106,10 @@ theorem LoadSt.bind {s0 s : State} {c : Cfg} {B : List Addr} (h : LoadSt s0 c B 
     (ha : a ∈ c.addrs) (hb : a ∉ B) : ∃ s', step? s (.bind a) = some s' ∧ LoadSt s0 c (a :: B) s' := by
   have hbd : bindable s a = true := by
     simp [bindable, h.next, h.loading, ha, h.notHeld a hb]
-  have hns : (a.unix && (s.socks a).stale) = false := by
-    cases hu : a.unix
-    · rfl
-    · simp [h.notStale a hb ha hu]
-  have he : enabled s (.bind a) = true := by simp [enabled, hbd, hns]
+  have he : enabled s (.bind a) = true := by simp [enabled, hbd]
   have hs : step? s (.bind a) = some (eff s (.bind a)) := by simp [step?, he]
   have hng : nextGen s = c.gen := by simp [nextGen, h.next]
-  refine ⟨_, hs, ⟨h.reach.step _ hs, ?_, ?_, ?_, ?_, ?_, ?_, ?_, ?_⟩⟩
+  refine ⟨_, hs, ⟨h.reach.step _ hs, ?_, ?_, ?_, ?_, ?_, ?_, ?_⟩⟩
   · simp [eff, h.next]
   · simp [eff, State.loading]
   · simp [eff, h.cur]
@@ -132,11 +127,6 @@ theorem LoadSt.bind {s0 s : State} {c : Cfg} {B : List Addr} (h : LoadSt s0 c B 
     simp only [eff, State.holds]
     rw [setSock_ne _ _ hba]
     exact h.notHeld b (fun e => hb' (List.mem_cons_of_mem _ e))
-  · intro b hb' hbc hu
-    have hba : b ≠ a := fun e => hb' (e ▸ List.mem_cons_self)
-    simp only [eff]
-    rw [setSock_ne _ _ hba]
-    exact h.notStale b (fun e => hb' (List.mem_cons_of_mem _ e)) hbc hu
   · intro b g hg
     simp only [eff, State.holds, hng]
     by_cases hba : b = a
@@ -289,12 +279,11 @@ theorem stopSteps_run {s : State} (hr : Reach s) (hph : s.phase = .stopping) (π
     exact hst.closed a (by simpa using ha)
 
 /-- **the code's reload is a run.**  From any reachable settled state, for any config with a fresh
-    generation and duplicate-free addresses none of which hits a stale `unixSockets` entry, and for
+    generation and duplicate-free addresses, and for
     any schedule `π`, `reloadSteps` is accepted by the transition system and ends settled with the
     new config running. -/
 theorem reloadSteps_run {s0 : State} (h0 : Reach s0) (hph : s0.phase = .idle) (hd : s0.drained = true)
-    (new : Cfg) (hf : s0.fresh ≤ new.gen) (hnd : new.addrs.Nodup)
-    (hst : ∀ a, a ∈ new.addrs → a.unix = true → (s0.socks a).stale = false) (π : Sched) :
+    (new : Cfg) (hf : s0.fresh ≤ new.gen) (hnd : new.addrs.Nodup) (π : Sched) :
     ∃ s, run s0 (reloadSteps new s0.cur π) = some s ∧
       (Reach s ∧ s.phase = .idle ∧ s.drained = true ∧ s.cur = some new ∧ s.zombies = s0.zombies) := by
   have hi0 := h0.inv
@@ -302,14 +291,13 @@ theorem reloadSteps_run {s0 : State} (h0 : Reach s0) (hph : s0.phase = .idle) (h
   have heb : enabled s0 (.begin new) = true := by simp [enabled, hph, hd, hf, hnd]
   have hsb : step? s0 (.begin new) = some (eff s0 (.begin new)) := by simp [step?, heb]
   have hL0 : LoadSt s0 new [] (eff s0 (.begin new)) ∧ (eff s0 (.begin new)).phase = .prov := by
-    refine ⟨⟨h0.step _ hsb, rfl, rfl, rfl, rfl, (fun a h => by cases h), ?_, ?_, fun a g h => h⟩, rfl⟩
-    · intro a _
-      simp only [eff, State.holds]
-      rw [Sock.holds_false_iff]
-      intro h hm e
-      have := hi0.hLt a h hm
-      omega
-    · intro a _ ha hu; exact hst a ha hu
+    refine ⟨⟨h0.step _ hsb, rfl, rfl, rfl, rfl, (fun a h => by cases h), ?_, fun a g h => h⟩, rfl⟩
+    intro a _
+    simp only [eff, State.holds]
+    rw [Sock.holds_false_iff]
+    intro h hm e
+    have := hi0.hLt a h hm
+    omega
   unfold reloadSteps
   -- loading half: up to and including the swap
   have hload : ∃ s3, run s0 ([.begin new] ++ List.replicate π.prov (.cb .provision new.gen)
@@ -366,19 +354,9 @@ def isBegin : Step → Bool
   | .begin _ => true
   | _ => false
 
-def isReject : Step → Bool
-  | .reject => true
-  | _ => false
-
 theorem eff_fresh {s : State} {st : Step} (h : isBegin st = false) : (eff s st).fresh = s.fresh := by
   cases st with
   | begin c => simp [isBegin] at h
-  | cb k g => cases k <;> rfl
-  | _ => rfl
-
-theorem eff_everRejected {s : State} {st : Step} (h : isReject st = false) : (eff s st).everRejected = s.everRejected := by
-  cases st with
-  | reject => simp [isReject] at h
   | cb k g => cases k <;> rfl
   | _ => rfl
 
@@ -394,27 +372,10 @@ theorem run_fresh : ∀ (steps : List Step) {s s' : State}, run s steps = some s
       rw [run_fresh rest hr ha.2, eff_fresh ha.1]
     · cases hr
 
-theorem run_everRejected : ∀ (steps : List Step) {s s' : State}, run s steps = some s' →
-    steps.all (fun st => !isReject st) = true → s'.everRejected = s.everRejected
-  | [], s, s', hr, _ => by simp [run] at hr; rw [hr]
-  | st :: rest, s, s', hr, ha => by
-    simp only [List.all_cons, Bool.and_eq_true, Bool.not_eq_true'] at ha
-    unfold run at hr
-    split at hr
-    · rename_i s1 hs1
-      obtain ⟨_, rfl⟩ := step?_some hs1
-      rw [run_everRejected rest hr ha.2, eff_everRejected ha.1]
-    · cases hr
-
 theorem reloadSteps_tail_noBegin (new : Cfg) (old : Option Cfg) (π : Sched) :
     ((reloadSteps new old π).drop 1).all (fun st => !isBegin st) = true := by
   cases old <;>
     simp [reloadSteps, stopSteps, List.all_append, List.all_map, List.all_replicate, isBegin, Function.comp_def]
-
-theorem reloadSteps_noReject (new : Cfg) (old : Option Cfg) (π : Sched) :
-    (reloadSteps new old π).all (fun st => !isReject st) = true := by
-  cases old <;>
-    simp [reloadSteps, stopSteps, List.all_append, List.all_map, List.all_replicate, isReject, Function.comp_def]
 
 theorem reloadSteps_head (new : Cfg) (old : Option Cfg) (π : Sched) :
     reloadSteps new old π = .begin new :: (reloadSteps new old π).drop 1 := by
@@ -430,19 +391,15 @@ def okSeq : Nat → List (Cfg × Sched) → Prop
   | _, [] => True
   | n, (c, _) :: rest => n ≤ c.gen ∧ c.addrs.Nodup ∧ okSeq (c.gen + 1) rest
 
-/-- **every sequence of reloads is a run** (and ends settled, without a half-started config), for
+/-- **every sequence of reloads is a run** (and ends settled), for
     every list of configs and every schedule of each reload. -/
 theorem reloadSeq_run : ∀ (cfgs : List (Cfg × Sched)) {s0 : State}, Reach s0 → s0.phase = .idle →
-    s0.drained = true → s0.everRejected = false → okSeq s0.fresh cfgs →
-    ∃ s, run s0 (reloadSeq s0.cur cfgs) = some s ∧
-      (Reach s ∧ s.phase = .idle ∧ s.drained = true ∧ s.everRejected = false ∧ s.zombies = [])
-  | [], s0, h0, hp, hd, hr, _ => ⟨s0, rfl, h0, hp, hd, hr, (h0.kinv hr).noZombies⟩
-  | (c, π) :: rest, s0, h0, hp, hd, hr, hok => by
+    s0.drained = true → okSeq s0.fresh cfgs →
+    ∃ s, run s0 (reloadSeq s0.cur cfgs) = some s ∧ (Reach s ∧ s.phase = .idle ∧ s.drained = true)
+  | [], s0, h0, hp, hd, _ => ⟨s0, rfl, h0, hp, hd⟩
+  | (c, π) :: rest, s0, h0, hp, hd, hok => by
     obtain ⟨hf, hnd, hok'⟩ := hok
-    have k := h0.kinv hr
-    obtain ⟨s1, h1, hr1, hp1, hd1, hc1, _⟩ := reloadSteps_run h0 hp hd c hf hnd (fun a _ hu => k.not_stale hu) π
-    have hrej1 : s1.everRejected = false := by
-      rw [run_everRejected _ h1 (reloadSteps_noReject c s0.cur π)]; exact hr
+    obtain ⟨s1, h1, hr1, hp1, hd1, hc1, _⟩ := reloadSteps_run h0 hp hd c hf hnd π
     have hfresh1 : s1.fresh = c.gen + 1 := by
       rw [reloadSteps_head] at h1
       unfold run at h1
@@ -451,7 +408,7 @@ theorem reloadSeq_run : ∀ (cfgs : List (Cfg × Sched)) {s0 : State}, Reach s0 
         obtain ⟨_, rfl⟩ := step?_some hsb
         rw [run_fresh _ h1 (reloadSteps_tail_noBegin c s0.cur π)]; rfl
       · cases h1
-    obtain ⟨s2, h2, hfin⟩ := reloadSeq_run rest hr1 hp1 hd1 hrej1 (hfresh1 ▸ hok')
+    obtain ⟨s2, h2, hfin⟩ := reloadSeq_run rest hr1 hp1 hd1 (hfresh1 ▸ hok')
     refine ⟨s2, ?_, hfin⟩
     simp only [reloadSeq]
     rw [run_append, h1]
